@@ -89,8 +89,18 @@ def gen_cases(rng, tier):
         ts = "-" if rng.random() < 0.6 else "|".join(t.encode().hex() for t in rng.sample(["54", "54 0.5", "7.25"], rng.randrange(1, 3)))
         cl = "-" if rng.random() < 0.7 else rng.choice(["17", "0", "5"])
         remote = addr(rng.choice(V4 + V6), rng.choice([5060, 40000])) if conn else "-"
-        cases.append(["r%d" % i, "c09", "C" if conn else "D", src, "~".join(vias), str(code), reason, ts, cl, remote])
+        case = ["r%d" % i, "c09", "C" if conn else "D", src, "~".join(vias), str(code), reason, ts, cl, remote]
+        if not conn and code >= 200 and rng.random() < 0.5:
+            # the answer is lost and the request comes again - from the same place, or (when maddr names the destination anyway) from
+            # somewhere else: the copy of the response goes where the first one went
+            other = "maddr=" in vias[0] and rng.random() < 0.7
+            case.append(addr(rng.choice(V4), rng.choice([5060, 40000])) if other else src)
+        cases.append(case)
     return cases
+
+
+def normalize_impl(case, s):
+    return s.split("|R:")[0]
 
 
 REASONS = None
@@ -112,7 +122,7 @@ def oracle(case, impl):
         return ["panic: " + impl[:300]]
     if not impl.startswith("dest="):
         return ["no response observed: " + impl[:100]]
-    parts = impl.split("|")
+    parts = impl.split("|R:")[0].split("|")
     dest = parts[0][5:]
     line = parts[1]
     hdrs = [p.split(": ", 1) for p in parts[2:-1]]
@@ -185,6 +195,10 @@ def oracle(case, impl):
             want_dest = ("[%s]:%s" if sf[0] == "1" else "%s:%s") % (stext, sport)
     if dest != want_dest:
         return ["response sent to %s, RFC 3261 18.2.2 / RFC 3581 give %s" % (dest, want_dest)]
+    if "|R:" in impl:
+        r = impl.split("|R:")[1]
+        if r != "dest=%s:same=1" % want_dest:
+            return ["the request came again (from %s) and the response was repeated as %r; the same bytes to %s expected" % (case[10].split(":", 2)[2], r, want_dest)]
     return []
 
 
